@@ -670,6 +670,24 @@ func genC17(r *rng, tier string, emit func(string)) {
 		}
 		emit("ber2der " + hx(b))
 	}
+	// members that run past the end of their definite-length parent (rejected since the ber.go repair)
+	for _, k := range []int{1, 2, 3, 5, 8} {
+		emit("ber2der " + hx(c18overlap(k, 0x30)))
+	}
+	emit("ber2der 30043002040301020304") // inner OCTET STRING one byte longer than its parent
+	emit("ber2der 3005300204010102")     // member ends exactly at the parent's end: fine
+	for i := 0; i < n; i++ {             // random well-nested TLV trees with one declared length perturbed
+		t := c17Tree(r, 3)
+		emit("ber2der " + hx(t))
+		if len(t) > 4 {
+			m := append([]byte{}, t...)
+			pos := 1 + 2*r.intn(len(m)/2)
+			if pos < len(m) && m[pos] < 0x70 {
+				m[pos] = byte(int(m[pos]) + r.pick([]int{1, 2, -1, 3}))
+			}
+			emit("ber2der " + hx(m))
+		}
+	}
 	// pad / unpad
 	for i := 0; i < 30*n/10+30; i++ {
 		bl := r.pick([]int{8, 16, 1, 255, 0})
@@ -845,4 +863,24 @@ func chunkedEnvelope(der []byte, parts int) ([]byte, bool) {
 		target.children = append(target.children, &tlvNode{tag: 0x04, content: ct[lo:hi]})
 	}
 	return tlvEncode(top[0]), true
+}
+
+// c17Tree: a random well-formed definite/indefinite TLV tree with short lengths
+func c17Tree(r *rng, depth int) []byte {
+	if depth == 0 || r.intn(3) == 0 {
+		c := r.bytes(r.intn(4))
+		return append([]byte{byte(r.pick([]int{0x02, 0x04, 0x05, 0x0c, 0x80})), byte(len(c))}, c...)
+	}
+	var body []byte
+	for i, n := 0, r.intn(4); i < n; i++ {
+		body = append(body, c17Tree(r, depth-1)...)
+	}
+	tag := byte(r.pick([]int{0x30, 0x31, 0xa0, 0x24}))
+	if r.intn(3) == 0 {
+		return append(append([]byte{tag, 0x80}, body...), 0, 0)
+	}
+	if len(body) > 127 {
+		return append(append([]byte{tag}, c18derLen(len(body))...), body...)
+	}
+	return append([]byte{tag, byte(len(body))}, body...)
 }
